@@ -80,10 +80,10 @@ func redisShape(ev []string) string {
 		return "no commands"
 	}
 	i := 0
-	if ev[0] == "S:MULTI" {
+	if ev[0][2:] == "MULTI" { // queued by Send or by Do: either way nothing runs before the EXEC
 		i = 1
 		n := 0
-		for i < len(ev) && strings.HasPrefix(ev[i], "S:") {
+		for i < len(ev) && ev[i][2:] != "EXEC" {
 			cmd := ev[i][2:]
 			if redisCounterCmds[cmd] || cmd == "MULTI" || cmd == "?" {
 				return "unexpected " + ev[i] + " inside the group"
@@ -210,7 +210,7 @@ func redisOptimisticShape(ev []string) string {
 			watched = true
 		case e == "D:UNWATCH":
 			watched = false
-		case e == "S:MULTI":
+		case cmd == "MULTI":
 			if !watched {
 				return "MULTI without a WATCH before it"
 			}
@@ -223,13 +223,13 @@ func redisOptimisticShape(ev []string) string {
 			groups++
 		case redisReadCmds[cmd]:
 		case redisCounterCmds[cmd]:
-			if inMulti || e[:2] != "D:" {
+			if inMulti {
 				return "counter command " + cmd + " inside a command group"
 			}
 		case cmd == "?":
 			return "command name not a literal"
 		default: // a membership write
-			if !inMulti || e[:2] != "S:" {
+			if !inMulti {
 				return "membership command " + cmd + " outside a watched MULTI … EXEC group"
 			}
 		}
